@@ -13,10 +13,10 @@ CLAIMED = {
    text="PageStore.tla (commit protocol, cache vs disk, Kill, PowerLoss over every subset of unsynced writes with tears) model-checked: AllImagesRecoverable / AfterCrash / durability hold for the protocol as repaired and fail for the pinned order (vacuity guard). Recorded commits of the real code are validated against the protocol (Trace_Page) and Gen_Crash enables Kill/PowerLoss at every position of the recorded write sequence; every abstract recipe is concretised (sector and word tears) and reopened by the real code: exactly pre or post, DB::check ok, further commit works.",
    note=L1NOTE + " Power-loss model as in the property text.", tech="TLA+ L1 spec + TLC; trace validation of the commit protocol; TLC-generated crash recipes replayed as file images"),
  "C03": dict(cat="model_checking", ref="DESIGN.md 6 (C03)",
-   text="PageStore readers configuration model-checked (ReaderPinned, ReaderIntact); Gen_Readers enumerates every single-threaded interleaving of opening/closing up to k readers with committing / rolling-back writers, replayed on the real code with every open reader re-read in full after every step; release bounds / allocations / overwrites of the same runs and of random multi-reader histories validated by Trace_Page against the readers that are really open.",
+   text="PageStore readers configuration model-checked (ReaderPinned, ReaderIntact); Gen_Readers enumerates every single-threaded interleaving of opening/closing up to k readers with committing / rolling-back writers, replayed on the real code with every open reader re-read in full after every step; release bounds / allocations / overwrites of the same runs and of random multi-reader histories validated by Trace_Page against the readers that are really open. Hooks around Freelist::release list the pending entries before and after: an entry newer than the oldest snapshot in use must not disappear.",
    note=L1NOTE, tech="TLA+ L0+L1 specs + TLC; exhaustive interleaving replay; trace validation"),
  "C04": dict(cat="model_checking", ref="DESIGN.md 6 (C04), 3.3, 4.5",
-   text="Threads.tla (Tx::new / commit / resize / drop split at the yield hook points, five locks, release and allocation rules) model-checked without preemption bound: ReaderSafe, ReadsStable, Freshness; the pinned registration order violates ReaderSafe (vacuity guard). Gen_Threads enumerates all schedules with <= k preemptions of 1-2 readers against chains of page-reusing commits; each is forced on real threads parked at the hook points and the harness checks what every reader saw; seeded random schedules beyond the bound.",
+   text="Threads.tla (Tx::new / commit / resize / drop split at the yield hook points, five locks, release and allocation rules) model-checked without preemption bound: ReaderSafe, ReadsStable, Freshness; the pinned registration order violates ReaderSafe (vacuity guard). Gen_Threads enumerates all schedules with <= k preemptions of 1-2 readers against chains of page-reusing commits; each is forced on real threads parked at the hook points and the harness checks what every reader saw; seeded random schedules beyond the bound. Trace_Threads keeps the threads that hold a registration as ground truth for the registry (only the registering thread may deregister; release() is judged against it).",
    note="Trusted: TLC; transcription of the code into Threads.tla; schedules quantified at yield points only; harness-side observations.", tech="TLA+ L2 spec + TLC; TLC-generated schedules forced on real threads"),
  "C09": dict(cat="model_checking", ref="DESIGN.md 6 (C09), 3.3, 4.5",
    text="Threads.tla model-checked: OneWriter, NoLostUpdate, FinalCount, ReaderNotBlockedByWriter, deadlock freedom, and Progress under weak fairness. Bounded-preemption schedules of 2-3 read-modify-write writer threads with readers (incl. a commit that grows the file) are forced on real threads: overlap flag, final counter, every thread finishes, a thread the model says can proceed must not stay blocked; seeded random schedules beyond the bound.",
@@ -25,7 +25,7 @@ CLAIMED = {
    text="Every page image the library writes is decoded by an independent parser and TLC (Trace_Page) evaluates the structural and accounting predicates at every header write, cross-checks the final file, and DB::check() must agree; histories are TLC-generated (nested bucket deletions at several levels in one transaction, merges/splits on three-level trees) and random. BTree.tla leg (DESIGN.md 12.5): the rebalance / spill / cursor code transcribed operator by operator and model-checked (MC_BTree) over every short history on seed trees of up to three levels; every generated history is replayed into the real code against the reference map and the page structure found in the file is compared with the model's.",
    note=L1NOTE, tech="TLA+ predicates over decoded pages evaluated by TLC on recorded executions; transcribed B+tree model (BTree.tla) with exact structure conformance"),
  "C06": dict(cat="model_checking", ref="DESIGN.md 6 (C06)",
-   text="KVStore (OnlyCommitChanges: an error result or Drop leaves the committed state; mutators on read-only transactions yield ReadOnlyTx) and PageStore (no write outside a commit; Rollback changes nothing shared) model-checked. TLC-generated transactions (bucket deletions at several levels, deletes on three-level trees) are abandoned, re-run and committed; random histories with frequent rollbacks, failing calls, read-only mutators and re-opens with other options are validated by Trace_KV and Trace_Page: no write or header write outside a commit, file hash and length unchanged around every rollback / read-only transaction / failed call / re-open, shared free list untouched, later allocations exactly as without the abandoned transaction.",
+   text="KVStore (OnlyCommitChanges: an error result or Drop leaves the committed state; mutators on read-only transactions yield ReadOnlyTx) and PageStore (no write outside a commit; Rollback changes nothing shared) model-checked. TLC-generated transactions (bucket deletions at several levels, deletes on three-level trees) are abandoned, re-run and committed; random histories with frequent rollbacks, failing calls, read-only mutators and re-opens with other options are validated by Trace_KV and Trace_Page: no write or header write outside a commit, file hash and length unchanged around every rollback / read-only transaction / failed call / re-open, shared free list untouched, later allocations exactly as without the abandoned transaction. Probe: a strict-mode commit refused by the library's own check (damage in an unrelated bucket) must leave both headers and the visible content unchanged.",
    note=L1NOTE, tech="TLA+ L0+L1 specs + TLC; trace validation incl. file hashes"),
  "C07": dict(cat="model_checking", ref="DESIGN.md 6 (C07)",
    text="L0 transaction view: the full read API (get, scan, seek, re-seek, ranges, buckets, kv_pairs, counter, after-the-end probe) is issued after every single operation of a write transaction, in TLC-generated behaviours over tree-shape profiles and in random traces, and compared with KVOps!Do on the transaction's own view. BTree.tla leg (DESIGN.md 12.5): the rebalance / spill / cursor code transcribed operator by operator and model-checked (MC_BTree) over every short history on seed trees of up to three levels; every generated history is replayed into the real code against the reference map and the page structure found in the file is compared with the model's.",
@@ -34,19 +34,19 @@ CLAIMED = {
    text="Cursor sub-machine of L0 (SeekResults allows either neighbour for an absent key; ranges for all bound kinds; filters; next() after exhaustion) model-checked (SeekSound, AllSorted) and bound by TLC-generated exhaustive query sets: every seek / re-seek key and every pair of bounds over the universe on empty, single-leaf, two- and three-level buckets, committed and mid-transaction. BTree.tla leg (DESIGN.md 12.5): the rebalance / spill / cursor code transcribed operator by operator and model-checked (MC_BTree) over every short history on seed trees of up to three levels; every generated history is replayed into the real code against the reference map and the page structure found in the file is compared with the model's.",
    note="Trusted: TLC, exec.rs projection.", tech="TLA+ L0 spec + TLC; exhaustive query generation replayed on the real code; transcribed B+tree model (BTree.tla) with exact structure conformance"),
  "C10": dict(cat="model_checking", ref="DESIGN.md 6 (C10)",
-   text="PageStore readers+crash configurations model-checked (Accounting, FLConsistent incl. Reopen/Recover; Release constrained by MustReleaseOK/ReleaseBoundOK; extension only without a fitting free run). Long cyclic workloads of the real code are validated step by step by Trace_Page (alloc / free / release / publish / header events) with growth gates at cycle markers; shorter decoded runs give exact per-commit accounting.",
+   text="PageStore readers+crash configurations model-checked (Accounting, FLConsistent incl. Reopen/Recover; Release constrained by MustReleaseOK/ReleaseBoundOK; extension only without a fitting free run). Long cyclic workloads of the real code are validated step by step by Trace_Page (alloc / free / release / publish / header events) with growth gates at cycle markers; shorter decoded runs give exact per-commit accounting. A thread-schedule leg reports the Trace_Threads rules that belong to this property (every release lets go of what nobody can need; a reader that is gone is not left registered); workloads with free lists of several pages and a reopen per cycle.",
    note=L1NOTE + " Growth gates are generous multiples; the exact step rules carry the claim.", tech="TLA+ L1 rules checked by TLC on long recorded runs"),
  "C11": dict(cat="fault_enumeration", ref="DESIGN.md 6 (C11)",
-   text="PageStore with FailIO actions model-checked (FLConsistent, Accounting, CacheRecoverable; the variant that does not re-publish violates FLConsistent: vacuity guard). For every interposed write/fsync of every commit of recorded histories, the history is re-run with that call failing (error; short write then error; extension refused by RLIMIT_FSIZE): commit must return Io, the handle shows exactly pre or post, DB::check ok, further transactions commit, again after reopen; all runs trace-validated by Trace_Page.",
+   text="PageStore with FailIO actions model-checked (FLConsistent, Accounting, CacheRecoverable; the variant that does not re-publish violates FLConsistent: vacuity guard). For every interposed write/fsync of every commit of recorded histories, the history is re-run with that call failing (error; short write then error; extension refused by RLIMIT_FSIZE): commit must return Io, the handle shows exactly pre or post, DB::check ok, further transactions commit, again after reopen; all runs trace-validated by Trace_Page. The enumeration also runs over a synthetic history whose free list spans two pages and keeps that size.",
    note=L1NOTE + " Single faults; faults injected at the libc boundary.", tech="TLA+ L1 spec with fault actions + TLC; exhaustive single-fault injection on the real code"),
  "C12": dict(cat="model_checking", ref="DESIGN.md 6 (C12)",
    text="PageStore with Damage(slot) at quiescent points model-checked (FallbackIntact, AfterCrash). Gen_Damage enables Damage for each slot after open and after every acknowledged commit of recorded executions; each recipe is concretised as every single-byte change at every offset of the header page (several masks), zeroing, all-ones, random overwrites; the real code must open and show the other header's commit (either, where the pinned layout neither hashes nor reads the byte), pass DB::check and commit again.",
    note=L1NOTE, tech="TLA+ L1 spec + TLC; TLC-generated damage recipes concretised exhaustively per byte"),
  "C13": dict(cat="model_checking", ref="DESIGN.md 6 (C13), 3.4",
-   text="OpenLock.tla (open-or-create, lock, initialise if empty, map, commit a marker, close) model-checked for 3 processes, file present or absent: Exclusive, SeesAll, NoFailure, NothingLost, Waits (fair); the pinned create-before-lock order violates NoFailure (vacuity guard). Every ordering with <= k preemptions is forced on real processes gated at the open/init/lock hook points; overlap is observed by effect (monotonic intervals, markers seen, exit status); plus ungated runs with random offsets and hold times.",
-   note="Trusted: TLC; transcription of the open path; orderings forced at hook points only; flock observed by effect.", tech="TLA+ L3 spec + TLC; TLC-generated orderings forced on real processes"),
+   text="OpenLock.tla (open-or-create, lock, initialise if empty, map, commit a marker, close) model-checked for 3 processes, file present or absent: Exclusive, SeesAll, NoFailure, NothingLost, Waits (fair); the pinned create-before-lock order violates NoFailure (vacuity guard). Every ordering with <= k preemptions is forced on real processes gated at the open/init/lock hook points; overlap is observed by effect (monotonic intervals, markers seen, exit status); plus ungated runs with random offsets and hold times. Exclusive additionally without a depth bound: an inductive invariant of OpenLock.tla (OpenLock_Ind.tla) discharged by Apalache.",
+   note="Trusted: TLC; transcription of the open path; orderings forced at hook points only; flock observed by effect.", tech="TLA+ L3 spec + TLC; TLC-generated orderings forced on real processes; Apalache inductive invariant"),
  "C15": dict(cat="translation_validation", ref="DESIGN.md 6 (C15)",
-   text="Golden files written once by the pinned release (4 page sizes, nested buckets, multi-page values, non-empty free list) and their legacy-header rewrites are recorded behaviours the current code must accept and extend: Trace_KV starts from the recorded logical content, Trace_Page from the independent parse of the file (structure, accounting, header choice), a seeded random history is committed on top and validated step by step incl. every page image, the final file is parsed again; every mismatching page size must be refused with the file unchanged.",
+   text="Golden files written once by the pinned release (4 page sizes, nested buckets, multi-page values, non-empty free list) and their legacy-header rewrites are recorded behaviours the current code must accept and extend: Trace_KV starts from the recorded logical content, Trace_Page from the independent parse of the file (structure, accounting, header choice), a seeded random history is committed on top and validated step by step incl. every page image, the final file is parsed again; every mismatching page size must be refused with the file unchanged. Besides the truncated files: files the pinned release created with 4 pages and grew by its 8 MiB step (untruncated length) and files whose committed free list spans several pages.",
    note="Trusted: parse.rs encodes the pinned layout (incl. SHA3 legacy header) literally; golden files generated from commit f5c2214.", tech="golden files as recorded behaviours validated by the TLA+ trace specs; independent parser as layout oracle"),
  "C16": dict(cat="model_checking", ref="DESIGN.md 6 (C16)",
    text="L0 has no option variable: the same TLC-generated histories with TLC-computed results are replayed under a covering array (quick) / the full product (thorough) of page size x initial pages x strict x populate; non-multiple-of-8 page sizes must work or be refused without killing the process; growth runs drive a 4-page file across several 8 MiB extensions with the high-water mark creeping over each file end (also exactly one page beyond, and by more than one step at once), every write validated by Trace_Page to lie inside the file as it was, values read back through the same handle.",
